@@ -305,7 +305,7 @@ func driveFSM(m *fsm, rec *sendRec, state string, goodReq func(uint8) []byte) er
 
 func fsmEntry(name, proto string, samples func() [][]byte, goodReq func(uint8) []byte, unit []byte) *entry {
 	return &entry{
-		name: name, states: fsmStates, quick: 40000, thorough: 400000, chunk: 4000, cost: 3, scale: true,
+		name: name, states: fsmStates, quick: 40000, thorough: 200000, chunk: 4000, cost: 3, scale: true,
 		open: func(state string, ev *env) (runner, error) {
 			// probe once that the state is reachable
 			{
@@ -387,7 +387,7 @@ func chapResp(id uint8, value []byte, name string) []byte {
 func authEntry() *entry {
 	return &entry{
 		name: "pppoe.Authenticator.ReceivePacket", states: []string{"pap-pending", "pap-done", "chap-pending", "chap-done"},
-		quick: 24000, thorough: 240000, chunk: 6000, cost: 2, scale: true,
+		quick: 24000, thorough: 120000, chunk: 6000, cost: 2, scale: true,
 		open: func(state string, ev *env) (runner, error) {
 			chap := state == "chap-pending" || state == "chap-done"
 			proto := uint16(pppoe.ProtocolPAP)
@@ -460,7 +460,7 @@ func authEntry() *entry {
 func keepaliveEntry() *entry {
 	return &entry{
 		name: "pppoe.SessionKeepAlive.OnEchoReply", states: []string{"echo-pending", "idle"},
-		quick: 12000, thorough: 120000, chunk: 6000, cost: 3,
+		quick: 12000, thorough: 60000, chunk: 6000, cost: 3,
 		open: func(state string, ev *env) (runner, error) {
 			mac := net.HardwareAddr{2, 0, 0, 0, 0, 1}
 			mk := func() (*pppoe.SessionKeepAlive, *sendRec, error) {
@@ -984,18 +984,18 @@ func (l *pppoeLoop) ScaleInput(n int) []byte {
 
 func pppoeLoopEntry() *entry {
 	return &entry{
-		name: "pppoe.Server.receiveLoop", states: []string{"sessions-in-every-phase", "session-table-full"}, quick: 24000, thorough: 240000, chunk: 1500, cost: 12, scale: true, scaleIn: []string{"sessions-in-every-phase"},
+		name: "pppoe.Server.receiveLoop", states: []string{"sessions-in-every-phase", "session-table-full"}, quick: 24000, thorough: 120000, chunk: 1500, cost: 12, scale: true, scaleIn: []string{"sessions-in-every-phase"},
 		quota: func(state string, thorough bool) int {
 			if state == "session-table-full" {
 				// filling the table costs 65 535 well-formed exchanges per child (15-25 s under the race
 				// detector), and every hang found another 10 s watchdog period: thorough tier only
 				if thorough {
-					return 600
+					return 400
 				}
 				return 0
 			}
 			if thorough {
-				return 240000
+				return 120000
 			}
 			return 24000
 		},
@@ -1008,7 +1008,7 @@ func pppoeLoopEntry() *entry {
 
 func parserEntry(name string, seeds [][]byte, call func(in []byte) (bool, error), scaleFn func(n int) []byte) *entry {
 	return &entry{
-		name: name, quick: 20000, thorough: 200000, chunk: 10000, cost: 1, scale: scaleFn != nil,
+		name: name, quick: 20000, thorough: 100000, chunk: 10000, cost: 1, scale: scaleFn != nil,
 		open: func(state string, ev *env) (runner, error) {
 			r := &fnRunner{seeds: seeds, scale: scaleFn, fresh: true}
 			r.initSys(name)
